@@ -186,9 +186,14 @@ fn vertex_case(rng: &mut Rng, rep: &mut Report, big: bool) {
             let dmin = pts.iter().map(|p| d2(*p, c)).fold(f32::INFINITY, f32::min);
             let nearest: Vec<usize> = (0..n).filter(|i| d2(pts[*i], c) == dmin).collect();
             let dist_m = hav_m_f64((c.0 as f64, c.1 as f64), (pts[nearest[0]].0 as f64, pts[nearest[0]].1 as f64));
+            // candidates that tie under the plugin's measure can differ in great-circle distance (a degree of
+            // longitude is shorter than a degree of latitude): the verdict is only defined when all ties agree
             let v = match tol_m {
                 None => Some(true),
-                Some(t) => verdict(dist_m, t),
+                Some(t) => {
+                    let vs: Vec<Option<bool>> = nearest.iter().map(|i| verdict(hav_m_f64((c.0 as f64, c.1 as f64), (pts[*i].0 as f64, pts[*i].1 as f64)), t)).collect();
+                    if vs.iter().all(|x| *x == vs[0]) { vs[0] } else { None }
+                }
             };
             expectations.push((label, nearest, dist_m, v));
             expect_ok = match (expect_ok, v) {
@@ -422,12 +427,15 @@ fn edge_case(rng: &mut Rng, rep: &mut Report, big: bool) {
             let dist_m = hav_m_f64((c.0 as f64, c.1 as f64), (cents[nearest[0]].0 as f64, cents[nearest[0]].1 as f64));
             let mut v = match tol_m {
                 None => Some(true),
-                Some(t) => verdict(dist_m, t),
+                Some(t) => {
+                    let vs: Vec<Option<bool>> = nearest.iter().map(|i| verdict(hav_m_f64((c.0 as f64, c.1 as f64), (cents[*i].0 as f64, cents[*i].1 as f64)), t)).collect();
+                    if vs.iter().all(|x| *x == vs[0]) { vs[0] } else { None }
+                }
             };
             // don't-care: a nearer (under the plugin's measure) inadmissible candidate that is itself beyond
             // tolerance may end the scan before the admissible one is reached
             if let (Some(t), Some(true)) = (tol_m, v) {
-                let blocks = (0..n).any(|e| !(class_ok[e] && vehicle_ok[e]) && d2(cents[e], c) < dmin && verdict(hav_m_f64((c.0 as f64, c.1 as f64), (cents[e].0 as f64, cents[e].1 as f64)), t) != Some(true));
+                let blocks = (0..n).any(|e| !(class_ok[e] && vehicle_ok[e]) && d2(cents[e], c) <= dmin && verdict(hav_m_f64((c.0 as f64, c.1 as f64), (cents[e].0 as f64, cents[e].1 as f64)), t) != Some(true));
                 if blocks {
                     v = None;
                 }
